@@ -7,6 +7,9 @@ import Poulpy.Lemmas.NttAvxBridge
 import Poulpy.Lemmas.Fft64Instance
 import Poulpy.Lemmas.Fft64Vmp
 import Poulpy.Lemmas.F64Mono
+import Poulpy.Lemmas.Fft64AvxAgree
+import Poulpy.Lemmas.Fft64AvxVmpNumeric
+import Poulpy.Lemmas.Fft64CnvConstSpec
 
 /-!
 # C07 — DFT-domain products equal exact negacyclic (bivariate) convolution
@@ -1304,5 +1307,496 @@ example : ‖cval (bflyFwd ⟨0x3FF0000000000000, 0, false⟩ (0x400800000000000
   · exact hn _ _ (by rw [v1]; norm_num) (by rw [vm2]; norm_num)
   · calc (8:ℝ) = 2 ^ (3:Int) := by norm_num
       _ ≤ (2:ℝ) ^ (999:Int) := two_pow_le _ _ (by norm_num)
+
+end C07
+
+
+/-!
+# FFT64Avx — the AVX2/FMA back end (appended slice, second round)
+
+`Model/Fft64Avx.lean` models `poulpy-cpu-avx/src/fft64` lane by lane: `F64.fma` (ONE rounding of `x·y + z`:
+`_mm256_fmadd_pd / fmsub_pd`, `vfmadd231pd / vfmsub231pd` of the `.s` kernels) replaces the separately rounded products of
+the reference in the butterflies, in `reim_mul/addmul` and in the reim4 matrix-vector kernels; the conversions are the
+magic-constant / exponent-shift tricks.  Tied bit for bit through `pvh fft64 be=avx` (the `f64` bits differ from FFT64Ref).
+The error analysis lifts with the *same* constants (a fused product saves a rounding), so:
+
+* `fft64avx_pipeline_exact`, `fft64avx_vmp_exact`: the FFT64Avx pipelines return exactly `Hal.negMul` / the sum of products
+  inside `SvpDomainX` (= `SvpDomain` + one `u`) resp. `VmpDomainAvx`;
+* **`fft64_ref_avx_agree_inside_domain`** (the C10 statement for the FFT64 family): inside the common domain both back ends
+  return the same integers although their `f64` intermediate values differ; `fft64_ref_avx_agree_numeric` gives the domain
+  in numbers (the table of `fft64_domain_numeric`); `fft64_vmp_ref_avx_agree` for the vector-matrix product.
+-/
+
+namespace C07
+open F64 Fft64 Fft64Avx Complex Hal
+
+/-- `fma` is the correctly rounded `a·b + c`: ONE rounding -/
+theorem f64_fma_correctly_rounded (a b c : Nat) (ha : Fin64 a) (hb : Fin64 b) (hc : Fin64 c)
+    (hx : |val a * val b + val c| < (2:ℝ) ^ (1023:Int)) :
+    Fin64 (F64.fma a b c) ∧ |val (F64.fma a b c) - (val a * val b + val c)| ≤ max (u * |val a * val b + val c|) η :=
+  fma_spec a b c ha hb hc hx
+
+/-- one AVX2/FMA forward butterfly: the statement and constant of the reference butterfly -/
+theorem fft64avx_butterfly_error (t : Tw) (a b : C64) (ω : ℂ) (τ M : ℝ) (ht : TwFin t) (ha : CFin a) (hb : CFin b)
+    (hω : ‖ω‖ = 1) (hτ : ‖twC t - ω‖ ≤ τ) (hτ1 : τ ≤ 1) (hMa : ‖cval a‖ ≤ M) (hMb : ‖cval b‖ ≤ M)
+    (hM1 : 1 ≤ M) (hM2 : M ≤ (2:ℝ) ^ (999:Int)) :
+    CFin (bflyFwdAvx t a b).1 ∧ CFin (bflyFwdAvx t a b).2 ∧
+    ‖cval (bflyFwdAvx t a b).1 - (cval a + ω * cval b)‖ ≤ γf τ * M ∧
+    ‖cval (bflyFwdAvx t a b).2 - (cval a - ω * cval b)‖ ≤ γf τ * M :=
+  bflyFwdAvx_err t a b ω τ M ht ha hb hω hτ hτ1 hMa hMb hM1 hM2
+
+theorem fft64avx_inv_butterfly_error (t : Tw) (a b : C64) (ω : ℂ) (τ M : ℝ) (ht : TwFin t) (ha : CFin a) (hb : CFin b)
+    (hω : ‖ω‖ = 1) (hτ : ‖twCi t - ω‖ ≤ τ) (hτ1 : τ ≤ 1) (hMa : ‖cval a‖ ≤ M) (hMb : ‖cval b‖ ≤ M)
+    (hM1 : 1 ≤ M) (hM2 : M ≤ (2:ℝ) ^ (997:Int)) :
+    CFin (bflyInvAvx t a b).1 ∧ CFin (bflyInvAvx t a b).2 ∧
+    ‖cval (bflyInvAvx t a b).1 - (cval a + cval b)‖ ≤ γi τ * M ∧
+    ‖cval (bflyInvAvx t a b).2 - (cval a - cval b) * ω‖ ≤ γi τ * M :=
+  bflyInvAvx_err t a b ω τ M ht ha hb hω hτ hτ1 hMa hMb hM1 hM2
+
+/-- the level induction for ANY butterfly function meeting the per-butterfly statement (`Fft64Avx.FwdSpec`) -/
+theorem fft64_network_error_generic (bf : Tw → C64 → C64 → C64 × C64) (hbf : FwdSpec bf) (τ : ℝ) (hτ0 : 0 ≤ τ) (hτ1 : τ ≤ 1)
+    (tw : Nat → Nat → Tw) (k lvl blk : Nat) (j A E : ℝ) (zc : List C64) (z : List ℂ) (hA : 1 ≤ A) (hE : 0 ≤ E)
+    (hlen : zc.length = 2 ^ k) (hc : Close E A zc z) (hacc : AccF τ tw k lvl blk j)
+    (hbig : 2 ^ k * (1 + γf τ / 2) ^ k * (A + E) ≤ (2:ℝ) ^ (999:Int)) :
+    Close (errB (γf τ) k A E) (2 ^ k * A) (fwdG bf tw k lvl blk zc) (fwdE k j z) :=
+  fwdG_err bf hbf τ hτ0 hτ1 tw k lvl blk j A E zc z hA hE hlen hc hacc hbig
+
+/-- `reim_from_znx_i64_bnd50_fma` (magic constant `2^52 + 2^51`): bit for bit the reference conversion inside its asserted range -/
+theorem fft64avx_from_znx_eq (a : List Int) (ha : ∀ x ∈ a, x.natAbs ≤ 2 ^ 50 - 1) : fromZnxAvx a = .ok (fromZnx a) :=
+  fromZnxAvx_eq a ha
+
+/-- outside the range the kernel's `assert!` fires (an outcome of the model) -/
+theorem fft64avx_from_znx_panics : fromZnxAvx [0, 2 ^ 50, 0, 0] = .panic "other" := by rfl
+
+/-- `reim_to_znx_i64_bnd63_avx2_fma`, one lane: the integer within `δ` of `a/2^K` is returned when `δ + u(|c|+1) < 1/2` -/
+theorem fft64avx_to_znx_lane (K : Nat) (hK : K ≤ 900) (a : Nat) (ha : Fin64 a) (c : Int) (hc : |c| ≤ 2 ^ 62) (δ : ℝ)
+    (hδ : |val a / 2 ^ K - (c:ℝ)| ≤ δ) (hmain : δ + u * (|(c:ℝ)| + 1) < 1 / 2) : toLaneAvx K a = c :=
+  toLaneAvx_spec K hK a ha c hc δ hδ hmain
+
+/-- **`fft64avx_pipeline_exact`**: `svp_prepare`; `svp_apply_dft`; `vec_znx_idft_apply` on `Module<FFT64Avx>` (model
+`Fft64Avx.svpPipelineAvx`, tied bit for bit) returns exactly the negacyclic product inside `SvpDomainX` -/
+theorem fft64avx_pipeline_exact (K : Nat) (omg iomg : Array Nat) (τ Ma Mb : ℝ) (p x : List Int)
+    (hacc : TableAccurate τ K omg iomg)
+    (hp : p.length = 2 ^ (K + 1)) (hx : x.length = 2 ^ (K + 1))
+    (hpM : ∀ c ∈ p, c.natAbs ≤ 2 ^ 50 - 1 ∧ |(c:ℝ)| ≤ Ma) (hxM : ∀ c ∈ x, c.natAbs ≤ 2 ^ 50 - 1 ∧ |(c:ℝ)| ≤ Mb)
+    (hdomX : SvpDomainX K τ Ma Mb) : svpPipelineAvx K omg iomg p x = .ok (Hal.negMul p x) :=
+  svpAvx_pipeline_exact K omg iomg τ Ma Mb p x hacc hp hx hpM hxM hdomX
+
+/-- **`fft64_ref_avx_agree_inside_domain`** — the C10 statement for the FFT64 family: inside the common domain FFT64Avx
+and FFT64Ref return the same integers, although every intermediate `f64` differs in its last bits -/
+theorem fft64_ref_avx_agree_inside_domain (K : Nat) (omg iomg : Array Nat) (τ Ma Mb : ℝ) (p x : List Int)
+    (hacc : TableAccurate τ K omg iomg)
+    (hp : p.length = 2 ^ (K + 1)) (hx : x.length = 2 ^ (K + 1))
+    (hpM : ∀ c ∈ p, c.natAbs ≤ 2 ^ 50 - 1 ∧ |(c:ℝ)| ≤ Ma) (hxM : ∀ c ∈ x, c.natAbs ≤ 2 ^ 50 - 1 ∧ |(c:ℝ)| ≤ Mb)
+    (hdomX : SvpDomainX K τ Ma Mb) :
+    svpPipelineAvx K omg iomg p x = .ok (Fft64.svpPipeline K omg iomg p x) :=
+  svp_ref_avx_agree K omg iomg τ Ma Mb p x hacc hp hx hpM hxM hdomX
+
+/-- the common domain in numbers: the table of `fft64_domain_numeric` -/
+theorem fft64avx_domain_numeric (K : Nat) (hK : K ≤ 15) (Ma Mb : ℝ) (hMa : 1 ≤ Ma) (hMb : 1 ≤ Mb)
+    (h : Ma * Mb ≤ (2:ℝ) ^ (domBits K)) : SvpDomainX K τ51 Ma Mb := svpDomainX_numeric K hK Ma Mb hMa hMb h
+
+/-- integer hypotheses only: exactness on FFT64Avx and agreement with FFT64Ref for `n ≤ 2^16`, `A·B ≤ 2^(domBits K)` -/
+theorem fft64_ref_avx_agree_numeric (K : Nat) (hK : K ≤ 15) (omg iomg : Array Nat) (hacc : TableAccurate τ51 K omg iomg)
+    (p x : List Int) (hp : p.length = 2 ^ (K + 1)) (hx : x.length = 2 ^ (K + 1)) (A B : Nat) (hA : 1 ≤ A) (hB : 1 ≤ B)
+    (hpA : ∀ c ∈ p, c.natAbs ≤ A) (hxB : ∀ c ∈ x, c.natAbs ≤ B) (hAB : A * B ≤ 2 ^ domBits K) :
+    svpPipelineAvx K omg iomg p x = .ok (Hal.negMul p x) ∧
+    svpPipelineAvx K omg iomg p x = .ok (Fft64.svpPipeline K omg iomg p x) :=
+  svpAvx_exact_numeric K hK omg iomg hacc p x hp hx A B hA hB hpA hxB hAB
+
+/-- **`fft64avx_vmp_exact`**: `vmp_prepare`; `vmp_apply_dft` (one output column through `reim4_vec_mat1col_product_avx`:
+four fused real accumulators per slot, `re1 − re2`, `im1 + im2` at the end); `idft` = the exact sum of products, inside
+`VmpDomainAvx` -/
+theorem fft64avx_vmp_exact (K : Nat) (hK2 : 2 ≤ K) (omg iomg : Array Nat) (τ Ma Mb : ℝ) (rows : List (Poly × Poly))
+    (hacc : TableAccurate τ K omg iomg)
+    (hlen : ∀ r ∈ rows, r.1.length = 2 ^ (K + 1) ∧ r.2.length = 2 ^ (K + 1))
+    (hM : ∀ r ∈ rows, (∀ c ∈ r.1, c.natAbs ≤ 2 ^ 50 - 1 ∧ |(c:ℝ)| ≤ Ma) ∧ (∀ c ∈ r.2, c.natAbs ≤ 2 ^ 50 - 1 ∧ |(c:ℝ)| ≤ Mb))
+    (hdom : VmpDomainAvx K rows.length τ Ma Mb) :
+    vmpPipelineAvx K omg iomg 1 rows = .ok (Hal.sumPolys (2 ^ (K + 1)) (rows.map (fun r => Hal.negMul r.1 r.2))) :=
+  vmpAvx_pipeline_exact K hK2 omg iomg τ Ma Mb rows hacc hlen hM hdom
+
+theorem fft64_vmp_ref_avx_agree (K : Nat) (hK2 : 2 ≤ K) (omg iomg : Array Nat) (τ Ma Mb : ℝ) (rows : List (Poly × Poly))
+    (hacc : TableAccurate τ K omg iomg)
+    (hlen : ∀ r ∈ rows, r.1.length = 2 ^ (K + 1) ∧ r.2.length = 2 ^ (K + 1))
+    (hM : ∀ r ∈ rows, (∀ c ∈ r.1, c.natAbs ≤ 2 ^ 50 - 1 ∧ |(c:ℝ)| ≤ Ma) ∧ (∀ c ∈ r.2, c.natAbs ≤ 2 ^ 50 - 1 ∧ |(c:ℝ)| ≤ Mb))
+    (hdomA : VmpDomainAvx K rows.length τ Ma Mb) (hdomR : VmpDomain K rows.length τ Ma Mb) :
+    vmpPipelineAvx K omg iomg 1 rows = .ok (Fft64.vmpPipeline K omg iomg rows) :=
+  vmp_ref_avx_agree K hK2 omg iomg τ Ma Mb rows hacc hlen hM hdomA hdomR
+
+theorem fft64avx_vmp_domain_example : VmpDomainAvx 2 3 τ51 4096 4096 := vmpDomainAvx_example
+
+/-- `VmpDomain` follows from its main inequality alone (all range side conditions are consequences) -/
+theorem fft64_vmp_domain_of_main (K R : Nat) (τ Ma Mb : ℝ) (hτ0 : 0 ≤ τ) (hτ1 : τ ≤ 1) (hK : K ≤ 1022) (hR : 1 ≤ R)
+    (hMa : 1 ≤ Ma) (hMb : 1 ≤ Mb)
+    (hmain : errB (γi τ) K (accR K R τ Ma Mb).2 (accR K R τ Ma Mb).1 / 2 ^ K * (1 + u) + u * (accR K R τ Ma Mb).2 + η < 1 / 2) :
+    VmpDomain K R τ Ma Mb := vmpDomain_of_main K R τ Ma Mb hτ0 hτ1 hK hR hMa hMb hmain
+
+/-- **`VmpDomain` in numbers** (FFT64Ref, `τ = 2^-51`, `n = 8 … 65536`, up to 64 rows): `rows·Ma·Mb ≤ 2^(domBitsV K)`,
+`domBitsV = 40, 37, 35, 33, 31, 29, 26, 24, 22, 20, 18, 16, 14, 12` for `K = 2 … 15`, i.e.
+`n·rows·Ma·Mb ≤ 2^43, 2^41, 2^40, 2^39, 2^38, 2^37, 2^35, 2^34, 2^33, 2^32, 2^31, 2^30, 2^29, 2^28`;
+growth `(Gv−1)(1+u)+u ≤ (20K + 70)·2^-53` -/
+theorem fft64_vmp_domain_numeric (K : Nat) (hK2 : 2 ≤ K) (hK : K ≤ 15) (R : Nat) (hR1 : 1 ≤ R) (hR : R ≤ 64) (Ma Mb : ℝ)
+    (hMa : 1 ≤ Ma) (hMb : 1 ≤ Mb) (h : R * (Ma * Mb) ≤ (2:ℝ) ^ (domBitsV K)) : VmpDomain K R τ51 Ma Mb :=
+  vmpDomain_numeric K hK2 hK R hR1 hR Ma Mb hMa hMb h
+
+/-- **`VmpDomainAvx` in numbers** (FFT64Avx, mat1col kernel): `rows·Ma·Mb ≤ 2^(domBitsVA K)`,
+`domBitsVA = 38, 36, 34, 32, 30, 27, 25, 23, 21, 19, 17, 15, 13, 11` for `K = 2 … 15`; growth `≤ (41K + 197)·2^-53` -/
+theorem fft64avx_vmp_domain_numeric (K : Nat) (hK : K ≤ 15) (R : Nat) (hR1 : 1 ≤ R) (hR : R ≤ 64) (Ma Mb : ℝ)
+    (hMa : 1 ≤ Ma) (hMb : 1 ≤ Mb) (h : R * (Ma * Mb) ≤ (2:ℝ) ^ (domBitsVA K)) : VmpDomainAvx K R τ51 Ma Mb :=
+  vmpDomainAvx_numeric K hK R hR1 hR Ma Mb hMa hMb h
+
+/-- vmp on both back ends with numbers only: exact and equal when `rows·Ma·Mb ≤ 2^(domBitsVA K)` -/
+theorem fft64_vmp_ref_avx_agree_numeric (K : Nat) (hK2 : 2 ≤ K) (hK : K ≤ 15) (omg iomg : Array Nat) (Ma Mb : ℝ)
+    (rows : List (Poly × Poly)) (hacc : TableAccurate τ51 K omg iomg)
+    (hlen : ∀ r ∈ rows, r.1.length = 2 ^ (K + 1) ∧ r.2.length = 2 ^ (K + 1))
+    (hM : ∀ r ∈ rows, (∀ c ∈ r.1, c.natAbs ≤ 2 ^ 50 - 1 ∧ |(c:ℝ)| ≤ Ma) ∧ (∀ c ∈ r.2, c.natAbs ≤ 2 ^ 50 - 1 ∧ |(c:ℝ)| ≤ Mb))
+    (hR1 : 1 ≤ rows.length) (hR : rows.length ≤ 64) (hMa : 1 ≤ Ma) (hMb : 1 ≤ Mb)
+    (h : rows.length * (Ma * Mb) ≤ (2:ℝ) ^ (domBitsVA K)) :
+    vmpPipelineAvx K omg iomg 1 rows = .ok (Hal.sumPolys (2 ^ (K + 1)) (rows.map (fun r => Hal.negMul r.1 r.2))) ∧
+    vmpPipelineAvx K omg iomg 1 rows = .ok (Fft64.vmpPipeline K omg iomg rows) := by
+  have hle : (2:ℝ) ^ (domBitsVA K) ≤ (2:ℝ) ^ (domBitsV K) := by
+    apply pow_le_pow_right₀ (by norm_num)
+    interval_cases K <;> simp [domBitsVA, domBitsV]
+  have dA := fft64avx_vmp_domain_numeric K hK rows.length hR1 hR Ma Mb hMa hMb h
+  have dR := fft64_vmp_domain_numeric K hK2 hK rows.length hR1 hR Ma Mb hMa hMb (le_trans h hle)
+  exact ⟨fft64avx_vmp_exact K hK2 omg iomg τ51 Ma Mb rows hacc hlen hM dA,
+    fft64_vmp_ref_avx_agree K hK2 omg iomg τ51 Ma Mb rows hacc hlen hM dA dR⟩
+
+/- The 2-column kernels (`reim4_vec_mat2cols_product_avx`, `…_2ndcol_product_avx`) are proved below: `fft64avx_vmp2_exact`. -/
+
+/-! non-vacuity: FFT64Avx and FFT64Ref on the crate's `m = 2` tables (where `m < 16` runs the reference butterflies and
+only the conversions differ), and the fused operation itself -/
+example : svpPipelineAvx 1 omg2 iomg2 [1000000, -2000000, 3000000, 4194303] [4194303, -1, 7, -4000000] =
+    .ok (Fft64.svpPipeline 1 omg2 iomg2 [1000000, -2000000, 3000000, 4194303] [4194303, -1, 7, -4000000]) :=
+  (fft64_ref_avx_agree_numeric 1 (by norm_num) omg2 iomg2 fft64_table_accurate_m2 _ _ rfl rfl (2 ^ 22) (2 ^ 22) (by norm_num) (by norm_num)
+    (by decide) (by decide) (by decide)).2
+/-- `fma(1+2^-52, 1+2^-51, -(1+3·2^-52)) = 2^-103`: the term a separately rounded product loses -/
+example : F64.fma 0x3FF0000000000001 0x3FF0000000000002 0xBFF0000000000003 = 0x3980000000000000 ∧
+    F64.add (F64.mul 0x3FF0000000000001 0x3FF0000000000002) 0xBFF0000000000003 = 0 := by decide +kernel
+/-- the two back ends really differ in the `f64` domain: one butterfly, same inputs, different bits -/
+example : bflyFwdAvx ⟨0x3FE6A09E667F3BCD, 0x3FE6A09E667F3BCC, false⟩ (0x4008000000000002, 0x4010000000000006) (0x3FF8000000000131, 0x3FFC00000000046D) ≠
+    bflyFwd ⟨0x3FE6A09E667F3BCD, 0x3FE6A09E667F3BCC, false⟩ (0x4008000000000002, 0x4010000000000006) (0x3FF8000000000131, 0x3FFC00000000046D) := by
+  decide +kernel
+example : toLaneAvx 2 0x4024000000000000 = 3 ∧ toLaneAvx 2 0xC024000000000000 = -3 ∧ fromLaneAvx (-5) = ofInt (-5) := by decide +kernel
+
+end C07
+
+
+/-!
+# FFT64: the fused-lane kernels and the bivariate convolution path (appended slice, second round, part 2)
+
+* `fft64avx_lane_step_error`: the error lemma of `re = fmsub(ar, br, fmsub(ai, bi, re))`, `im = fmadd(ai, br, fmadd(ar, bi, im))`
+  (two fused operations per product on one accumulator) — the lane of `reim4_vec_mat2cols(_2ndcol)_product_avx`,
+  `reim4_convolution_{1,2}coeffs_avx` and `reim_addmul_avx2_fma`; `fft64avx_vmp2_exact` lifts it to the 2-column vmp kernels.
+* `fft64_cnv_matches_spec` / `fft64avx_cnv_matches_spec`: `cnv_prepare_left/right` + `cnv_apply_dft` + `idft` of one column equal
+  `Hal.cnvApplyCol` of the prepared (masked, zero-filled) operands, on both back ends, inside explicit domains
+  (`VmpDomain` resp. `LaneDomainAvx` for every number of accumulated products `R ≤ min(sizeL, sizeR)`), numeric tables included;
+  `fft64_cnv_ref_avx_agree`: the two back ends return the same column.
+* `fft64avx_cnv_by_const_eq_ref` / `…_counterexample`: the `i64` by-constant convolution of FFT64Avx (`_mm256_mul_epi32`)
+  equals FFT64Ref exactly when every operand fits in `i32`, and differs at `3000000000 · 3`.
+-/
+
+namespace C07
+open F64 Fft64 Fft64Avx Fft64Cnv Complex Hal
+
+/-- **fused two-operation accumulate**: per component the error grows by `accStepN ν2 (2q + u·Aa·Ab) (Aa·Ab)`, `ν2 = 2u + u²` -/
+theorem fft64avx_lane_step_error (g A Ea Aa Eb Ab : ℝ) (hAa : 1 ≤ Aa) (hAb : 1 ≤ Ab) (hEa : 0 ≤ Ea) (hEb : 0 ≤ Eb) (hg : 0 ≤ g) (hA : 0 ≤ A)
+    (hbig : (accStepN ν2 (2 * qOf Ea Aa Eb Ab + u * (Aa * Ab)) (Aa * Ab) (g, A)).2 +
+      (accStepN ν2 (2 * qOf Ea Aa Eb Ab + u * (Aa * Ab)) (Aa * Ab) (g, A)).1 ≤ (2:ℝ) ^ (1000:Int))
+    (s : C64) (S : ℂ) (uc vc : C64) (x y : ℂ) (hs : Rel2 g A s S)
+    (hu : CFin uc ∧ ‖cval uc - x‖ ≤ Ea ∧ ‖x‖ ≤ Aa) (hv : CFin vc ∧ ‖cval vc - y‖ ≤ Eb ∧ ‖y‖ ≤ Ab) :
+    Rel2 (accStepN ν2 (2 * qOf Ea Aa Eb Ab + u * (Aa * Ab)) (Aa * Ab) (g, A)).1
+         (accStepN ν2 (2 * qOf Ea Aa Eb Ab + u * (Aa * Ab)) (Aa * Ab) (g, A)).2
+      (caddmulLaneAvx s uc vc) (S + x * y) :=
+  lane_step g A Ea Aa Eb Ab hAa hAb hEa hEb hg hA hbig s S uc vc x y hs hu hv
+
+/-- the 2-column vmp kernel is the same lane (definitionally) -/
+theorem fft64avx_mat2cols_is_lane (acc a b : C64) : mat2colsStep acc a b = caddmulLaneAvx acc a b := rfl
+
+/-- **`fft64avx_vmp_exact` for the 2-column kernels** (`reim4_vec_mat2cols_product_avx`, `…_2ndcol_product_avx`) -/
+theorem fft64avx_vmp2_exact (K : Nat) (hK2 : 2 ≤ K) (omg iomg : Array Nat) (τ Ma Mb : ℝ) (rows : List (Poly × Poly))
+    (hacc : TableAccurate τ K omg iomg)
+    (hlen : ∀ r ∈ rows, r.1.length = 2 ^ (K + 1) ∧ r.2.length = 2 ^ (K + 1))
+    (hM : ∀ r ∈ rows, (∀ c ∈ r.1, c.natAbs ≤ 2 ^ 50 - 1 ∧ |(c:ℝ)| ≤ Ma) ∧ (∀ c ∈ r.2, c.natAbs ≤ 2 ^ 50 - 1 ∧ |(c:ℝ)| ≤ Mb))
+    (hdom : LaneDomainAvx K rows.length τ Ma Mb) :
+    vmpPipelineAvx K omg iomg 2 rows = .ok (Hal.sumPolys (2 ^ (K + 1)) (rows.map (fun r => Hal.negMul r.1 r.2))) :=
+  vmpAvx2_pipeline_exact K hK2 omg iomg τ Ma Mb rows hacc hlen hM hdom
+
+/-- `LaneDomainAvx` follows from its main inequality alone -/
+theorem fft64avx_lane_domain_of_main (K R : Nat) (τ Ma Mb : ℝ) (hτ0 : 0 ≤ τ) (hτ1 : τ ≤ 1) (hK : K ≤ 900) (hR : 1 ≤ R)
+    (hMa : 1 ≤ Ma) (hMb : 1 ≤ Mb)
+    (hmain : errB (γi τ) K (accRL K R τ Ma Mb).2 (EaccL K R τ Ma Mb) / 2 ^ K * (1 + u) + u * ((accRL K R τ Ma Mb).2 + 1) + η < 1 / 2) :
+    LaneDomainAvx K R τ Ma Mb := laneDomainAvx_of_main K R τ Ma Mb hτ0 hτ1 hK hR hMa hMb hmain
+
+/-- **`LaneDomainAvx` in numbers** (up to 64 accumulated products): `R·Ma·Mb ≤ 2^(domBitsVA K)` — the table of the one-column
+kernel (`38, 36, 34, 32, 30, 27, 25, 23, 21, 19, 17, 15, 13, 11` for `K = 2 … 15`), growth `≤ (41K + 197)·2^-53` -/
+theorem fft64avx_lane_domain_numeric (K : Nat) (hK : K ≤ 15) (R : Nat) (hR1 : 1 ≤ R) (hR : R ≤ 64) (Ma Mb : ℝ)
+    (hMa : 1 ≤ Ma) (hMb : 1 ≤ Mb) (h : R * (Ma * Mb) ≤ (2:ℝ) ^ (domBitsVA K)) : LaneDomainAvx K R τ51 Ma Mb :=
+  laneDomainAvx_numeric K hK R hR1 hR Ma Mb hMa hMb h
+
+theorem domBitsVA_le_V (K : Nat) (hK : K ≤ 15) : (2:ℝ) ^ (domBitsVA K) ≤ (2:ℝ) ^ (domBitsV K) := by
+  apply pow_le_pow_right₀ (by norm_num)
+  interval_cases K <;> simp [domBitsVA, domBitsV]
+
+/-- vmp through the 2-column kernels, numbers only: exact, and equal to FFT64Ref -/
+theorem fft64_vmp2_ref_avx_agree_numeric (K : Nat) (hK2 : 2 ≤ K) (hK : K ≤ 15) (omg iomg : Array Nat) (Ma Mb : ℝ)
+    (rows : List (Poly × Poly)) (hacc : TableAccurate τ51 K omg iomg)
+    (hlen : ∀ r ∈ rows, r.1.length = 2 ^ (K + 1) ∧ r.2.length = 2 ^ (K + 1))
+    (hM : ∀ r ∈ rows, (∀ c ∈ r.1, c.natAbs ≤ 2 ^ 50 - 1 ∧ |(c:ℝ)| ≤ Ma) ∧ (∀ c ∈ r.2, c.natAbs ≤ 2 ^ 50 - 1 ∧ |(c:ℝ)| ≤ Mb))
+    (hR1 : 1 ≤ rows.length) (hR : rows.length ≤ 64) (hMa : 1 ≤ Ma) (hMb : 1 ≤ Mb)
+    (h : rows.length * (Ma * Mb) ≤ (2:ℝ) ^ (domBitsVA K)) :
+    vmpPipelineAvx K omg iomg 2 rows = .ok (Hal.sumPolys (2 ^ (K + 1)) (rows.map (fun r => Hal.negMul r.1 r.2))) ∧
+    vmpPipelineAvx K omg iomg 2 rows = .ok (Fft64.vmpPipeline K omg iomg rows) := by
+  have dA := fft64avx_lane_domain_numeric K hK rows.length hR1 hR Ma Mb hMa hMb h
+  have dR := fft64_vmp_domain_numeric K hK2 hK rows.length hR1 hR Ma Mb hMa hMb (le_trans h (domBitsVA_le_V K hK))
+  have e := fft64avx_vmp2_exact K hK2 omg iomg τ51 Ma Mb rows hacc hlen hM dA
+  refine ⟨e, ?_⟩
+  rw [e, vmp_pipeline_exact K omg iomg τ51 Ma Mb rows hacc hlen
+      (fun r hr => ⟨fun c hc => ⟨by have := ((hM r hr).1 c hc).1; omega, ((hM r hr).1 c hc).2⟩,
+        fun c hc => ⟨by have := ((hM r hr).2 c hc).1; omega, ((hM r hr).2 c hc).2⟩⟩) dR]
+
+/-! ### convolution -/
+
+/-- `convolution_prepare` on FFT64Ref: every prepared limb is `(EF, AF)`-close to the exact transform of the limb of
+`Hal.cnvPrepareCol` (masked top limb, zero fill) -/
+theorem fft64_cnv_prepare_rel (K : Nat) (omg : Array Nat) (τ M : ℝ) (rs : Nat) (mask : Int) (a : Col)
+    (hτ0 : 0 ≤ τ) (hτ1 : τ ≤ 1) (hM : 1 ≤ M) (hacc : AccF τ (twOf (fwdIdx K) omg) K 0 0 (1 / 4))
+    (hr : 2 ^ K * (1 + γf τ / 2) ^ K * (A0 M + 0) ≤ (2:ℝ) ^ (999:Int))
+    (hok : PrepOK K M (cnvPrepareCol (2 * 2 ^ K) rs mask a)) :
+    ∃ pa, cnvPrepare refOps K omg rs mask a = .ok pa ∧ PrepRel K τ M pa (cnvPrepareCol (2 * 2 ^ K) rs mask a) :=
+  cnvPrepare_rel K omg τ M rs mask a hτ0 hτ1 hM hacc hr hok
+
+/-- **`fft64_cnv_matches_spec`**: FFT64Ref, one column of `cnv_prepare_left/right` + `cnv_apply_dft` + `idft` -/
+theorem fft64_cnv_matches_spec (K : Nat) (hK2 : 2 ≤ K) (omg iomg : Array Nat) (τ Ma Mb : ℝ) (rs off sl sr : Nat) (ml mr : Int)
+    (a b : Col) (hacc : TableAccurate τ K omg iomg) (hsl : 1 ≤ sl) (hsr : 1 ≤ sr)
+    (hA : PrepOK K Ma (cnvPrepareCol (2 * 2 ^ K) sl ml a)) (hB : PrepOK K Mb (cnvPrepareCol (2 * 2 ^ K) sr mr b))
+    (hdom : ∀ R, 1 ≤ R → R ≤ min sl sr → VmpDomain K R τ Ma Mb) :
+    cnvPipeline refOps K omg iomg rs off sl sr ml mr a b =
+      .ok (cnvApplyCol (2 * 2 ^ K) rs off (cnvPrepareCol (2 * 2 ^ K) sl ml a) (cnvPrepareCol (2 * 2 ^ K) sr mr b)) :=
+  cnv_pipeline_exact K hK2 omg iomg τ Ma Mb rs off sl sr ml mr a b hacc hsl hsr hA hB hdom
+
+/-- the convolution domain in numbers: at most `min(sizeL, sizeR) ≤ 64` products are accumulated per output limb -/
+theorem fft64_cnv_matches_spec_numeric (K : Nat) (hK2 : 2 ≤ K) (hK : K ≤ 15) (omg iomg : Array Nat) (Ma Mb : ℝ) (rs off sl sr : Nat)
+    (ml mr : Int) (a b : Col) (hacc : TableAccurate τ51 K omg iomg) (hsl : 1 ≤ sl) (hsr : 1 ≤ sr) (h64 : min sl sr ≤ 64)
+    (hMa : 1 ≤ Ma) (hMb : 1 ≤ Mb)
+    (hA : PrepOK K Ma (cnvPrepareCol (2 * 2 ^ K) sl ml a)) (hB : PrepOK K Mb (cnvPrepareCol (2 * 2 ^ K) sr mr b))
+    (h : (min sl sr : Nat) * (Ma * Mb) ≤ (2:ℝ) ^ (domBitsV K)) :
+    cnvPipeline refOps K omg iomg rs off sl sr ml mr a b =
+      .ok (cnvApplyCol (2 * 2 ^ K) rs off (cnvPrepareCol (2 * 2 ^ K) sl ml a) (cnvPrepareCol (2 * 2 ^ K) sr mr b)) := by
+  apply fft64_cnv_matches_spec K hK2 omg iomg τ51 Ma Mb rs off sl sr ml mr a b hacc hsl hsr hA hB
+  intro R hR1 hR
+  apply fft64_vmp_domain_numeric K hK2 hK R hR1 (le_trans hR h64) Ma Mb hMa hMb
+  refine le_trans ?_ h
+  have : (R:ℝ) ≤ ((min sl sr : Nat):ℝ) := by exact_mod_cast hR
+  exact mul_le_mul_of_nonneg_right this (by positivity)
+
+/-- **`fft64avx_cnv_matches_spec`**: FFT64Avx (range assertions of the conversion included: no panic) -/
+theorem fft64avx_cnv_matches_spec (K : Nat) (hK2 : 2 ≤ K) (omg iomg : Array Nat) (τ Ma Mb : ℝ) (rs off sl sr : Nat) (ml mr : Int)
+    (a b : Col) (hacc : TableAccurate τ K omg iomg) (hsl : 1 ≤ sl) (hsr : 1 ≤ sr)
+    (hrawA : ∀ j, j < min sl a.length → ∀ c ∈ limbOr0 (2 * 2 ^ K) a j, c.natAbs ≤ 2 ^ 50 - 1)
+    (hrawB : ∀ j, j < min sr b.length → ∀ c ∈ limbOr0 (2 * 2 ^ K) b j, c.natAbs ≤ 2 ^ 50 - 1)
+    (hA : PrepOKA K Ma (cnvPrepareCol (2 * 2 ^ K) sl ml a)) (hB : PrepOKA K Mb (cnvPrepareCol (2 * 2 ^ K) sr mr b))
+    (hdom : ∀ R, 1 ≤ R → R ≤ min sl sr → LaneDomainAvx K R τ Ma Mb) :
+    cnvPipeline avxOps K omg iomg rs off sl sr ml mr a b =
+      .ok (cnvApplyCol (2 * 2 ^ K) rs off (cnvPrepareCol (2 * 2 ^ K) sl ml a) (cnvPrepareCol (2 * 2 ^ K) sr mr b)) :=
+  cnvAvx_pipeline_exact K hK2 omg iomg τ Ma Mb rs off sl sr ml mr a b hacc hsl hsr hrawA hrawB hA hB hdom
+
+/-- **`fft64_cnv_ref_avx_agree`** with numbers only: both back ends return `Hal.cnvApplyCol`, hence the same column -/
+theorem fft64_cnv_ref_avx_agree (K : Nat) (hK2 : 2 ≤ K) (hK : K ≤ 15) (omg iomg : Array Nat) (Ma Mb : ℝ) (rs off sl sr : Nat)
+    (ml mr : Int) (a b : Col) (hacc : TableAccurate τ51 K omg iomg) (hsl : 1 ≤ sl) (hsr : 1 ≤ sr) (h64 : min sl sr ≤ 64)
+    (hMa : 1 ≤ Ma) (hMb : 1 ≤ Mb)
+    (hrawA : ∀ j, j < min sl a.length → ∀ c ∈ limbOr0 (2 * 2 ^ K) a j, c.natAbs ≤ 2 ^ 50 - 1)
+    (hrawB : ∀ j, j < min sr b.length → ∀ c ∈ limbOr0 (2 * 2 ^ K) b j, c.natAbs ≤ 2 ^ 50 - 1)
+    (hA : PrepOKA K Ma (cnvPrepareCol (2 * 2 ^ K) sl ml a)) (hB : PrepOKA K Mb (cnvPrepareCol (2 * 2 ^ K) sr mr b))
+    (h : (min sl sr : Nat) * (Ma * Mb) ≤ (2:ℝ) ^ (domBitsVA K)) :
+    cnvPipeline avxOps K omg iomg rs off sl sr ml mr a b =
+      .ok (cnvApplyCol (2 * 2 ^ K) rs off (cnvPrepareCol (2 * 2 ^ K) sl ml a) (cnvPrepareCol (2 * 2 ^ K) sr mr b)) ∧
+    cnvPipeline avxOps K omg iomg rs off sl sr ml mr a b = cnvPipeline refOps K omg iomg rs off sl sr ml mr a b := by
+  have hRle : ∀ R : Nat, R ≤ min sl sr → (R:ℝ) * (Ma * Mb) ≤ (2:ℝ) ^ (domBitsVA K) := by
+    intro R hR
+    refine le_trans ?_ h
+    have : (R:ℝ) ≤ ((min sl sr : Nat):ℝ) := by exact_mod_cast hR
+    exact mul_le_mul_of_nonneg_right this (by positivity)
+  have dA : ∀ R, 1 ≤ R → R ≤ min sl sr → LaneDomainAvx K R τ51 Ma Mb :=
+    fun R hR1 hR => fft64avx_lane_domain_numeric K hK R hR1 (le_trans hR h64) Ma Mb hMa hMb (hRle R hR)
+  have dR : ∀ R, 1 ≤ R → R ≤ min sl sr → VmpDomain K R τ51 Ma Mb :=
+    fun R hR1 hR => fft64_vmp_domain_numeric K hK2 hK R hR1 (le_trans hR h64) Ma Mb hMa hMb (le_trans (hRle R hR) (domBitsVA_le_V K hK))
+  exact ⟨fft64avx_cnv_matches_spec K hK2 omg iomg τ51 Ma Mb rs off sl sr ml mr a b hacc hsl hsr hrawA hrawB hA hB dA,
+    cnv_ref_avx_agree K hK2 omg iomg τ51 Ma Mb rs off sl sr ml mr a b hacc hsl hsr hrawA hrawB hA hB dR dA⟩
+
+/-- **by-constant convolution (`i64`)**: FFT64Avx = FFT64Ref when every limb coefficient and every constant fits in `i32` -/
+theorem fft64avx_cnv_by_const_eq_ref (K rs off : Nat) (a : Col) (b : List Int)
+    (ha : ∀ j i, -(2 ^ 31) ≤ (limbOr0 (2 * 2 ^ K) a j).getD i 0 ∧ (limbOr0 (2 * 2 ^ K) a j).getD i 0 < 2 ^ 31)
+    (hb : ∀ j, -(2 ^ 31) ≤ b.getD j 0 ∧ b.getD j 0 < 2 ^ 31) :
+    cnvByConst true K rs off a b = cnvByConst false K rs off a b := cnvByConst_avx_eq_ref K rs off a b ha hb
+
+/-- … and **differs outside**: `3000000000 · 3` (`_mm256_mul_epi32` multiplies the sign-extended low 32 bits; the HAL entry point
+`cnv_by_const_apply` does not state the `i32` restriction) -/
+theorem fft64avx_cnv_by_const_counterexample :
+    cnvByConst true 2 1 0 [[3000000000, 1, -3000000000, 5, 6, 7, 8, 9]] [3] ≠
+    cnvByConst false 2 1 0 [[3000000000, 1, -3000000000, 5, 6, 7, 8, 9]] [3] := cnvByConst_avx_counterexample
+
+/-! ### pairwise convolution `(a_i + a_j)·(b_i + b_j)` -/
+
+/-- `reim_add` of two `(EF τ M, AF M)`-close transforms is `(EF τ' 2M, AF 2M)`-close: the sums double the magnitude, and the one
+extra rounding per component is absorbed by stating the result at `τ'` with `(1 + γf τ/2)(1 + 3u/2) ≤ 1 + γf τ'/2` -/
+theorem fft64_reim_add_close (K : Nat) (hK : 1 ≤ K) (τ τ' M : ℝ) (hτ0 : 0 ≤ τ) (hM : 1 ≤ M)
+    (hf : (1 + γf τ / 2) * (1 + 3 / 2 * u) ≤ 1 + γf τ' / 2)
+    (hbig : 2 * (AF K M + EF K τ M) ≤ (2:ℝ) ^ (1000:Int))
+    {x y : List C64} {X Y : List ℂ} (hx : Close (EF K τ M) (AF K M) x X) (hy : Close (EF K τ M) (AF K M) y Y) :
+    Close (EF K τ' (2 * M)) (AF K (2 * M)) (List.zipWith (fun p q : C64 => (add p.1 q.1, add p.2 q.2)) x y) (List.zipWith (· + ·) X Y) :=
+  close_add K hK τ τ' M hτ0 hM hf hbig hx hy
+
+/-- **`fft64_cnv_pairwise_matches_spec`** (FFT64Ref): `cnv_pairwise_apply_dft(i ≠ j)` + `idft` = `cnvApplyCol` of the column sums -/
+theorem fft64_cnv_pairwise_matches_spec (K : Nat) (hK2 : 2 ≤ K) (omg iomg : Array Nat) (τ τ' Ma Mb : ℝ) (rs off sl sr : Nat) (ml mr : Int)
+    (a0 a1 b0 b1 : Col) (hacc : TableAccurate τ K omg iomg) (hτ0 : 0 ≤ τ) (hττ : τ ≤ τ')
+    (hf : (1 + γf τ / 2) * (1 + 3 / 2 * u) ≤ 1 + γf τ' / 2) (hsl : 1 ≤ sl) (hsr : 1 ≤ sr) (hMa : 1 ≤ Ma) (hMb : 1 ≤ Mb)
+    (hA0 : PrepOK K Ma (cnvPrepareCol (2 * 2 ^ K) sl ml a0)) (hA1 : PrepOK K Ma (cnvPrepareCol (2 * 2 ^ K) sl ml a1))
+    (hB0 : PrepOK K Mb (cnvPrepareCol (2 * 2 ^ K) sr mr b0)) (hB1 : PrepOK K Mb (cnvPrepareCol (2 * 2 ^ K) sr mr b1))
+    (hdom : ∀ R, 1 ≤ R → R ≤ min sl sr → VmpDomain K R τ' (2 * Ma) (2 * Mb)) :
+    cnvPairwise refOps K omg iomg rs off sl sr ml mr a0 a1 b0 b1 =
+      .ok (cnvApplyCol (2 * 2 ^ K) rs off
+        (colAdd (2 * 2 ^ K) (cnvPrepareCol (2 * 2 ^ K) sl ml a0) (cnvPrepareCol (2 * 2 ^ K) sl ml a1))
+        (colAdd (2 * 2 ^ K) (cnvPrepareCol (2 * 2 ^ K) sr mr b0) (cnvPrepareCol (2 * 2 ^ K) sr mr b1))) :=
+  cnv_pairwise_exact K hK2 omg iomg τ τ' Ma Mb rs off sl sr ml mr a0 a1 b0 b1 hacc hτ0 hττ hf hsl hsr hMa hMb hA0 hA1 hB0 hB1 hdom
+
+/-- **`fft64avx_cnv_pairwise_matches_spec`** (FFT64Avx) -/
+theorem fft64avx_cnv_pairwise_matches_spec (K : Nat) (hK2 : 2 ≤ K) (omg iomg : Array Nat) (τ τ' Ma Mb : ℝ) (rs off sl sr : Nat) (ml mr : Int)
+    (a0 a1 b0 b1 : Col) (hacc : TableAccurate τ K omg iomg) (hτ0 : 0 ≤ τ) (hττ : τ ≤ τ')
+    (hf : (1 + γf τ / 2) * (1 + 3 / 2 * u) ≤ 1 + γf τ' / 2) (hsl : 1 ≤ sl) (hsr : 1 ≤ sr) (hMa : 1 ≤ Ma) (hMb : 1 ≤ Mb)
+    (hrawA0 : ∀ j, j < min sl a0.length → ∀ c ∈ limbOr0 (2 * 2 ^ K) a0 j, c.natAbs ≤ 2 ^ 50 - 1)
+    (hrawA1 : ∀ j, j < min sl a1.length → ∀ c ∈ limbOr0 (2 * 2 ^ K) a1 j, c.natAbs ≤ 2 ^ 50 - 1)
+    (hrawB0 : ∀ j, j < min sr b0.length → ∀ c ∈ limbOr0 (2 * 2 ^ K) b0 j, c.natAbs ≤ 2 ^ 50 - 1)
+    (hrawB1 : ∀ j, j < min sr b1.length → ∀ c ∈ limbOr0 (2 * 2 ^ K) b1 j, c.natAbs ≤ 2 ^ 50 - 1)
+    (hA0 : PrepOKA K Ma (cnvPrepareCol (2 * 2 ^ K) sl ml a0)) (hA1 : PrepOKA K Ma (cnvPrepareCol (2 * 2 ^ K) sl ml a1))
+    (hB0 : PrepOKA K Mb (cnvPrepareCol (2 * 2 ^ K) sr mr b0)) (hB1 : PrepOKA K Mb (cnvPrepareCol (2 * 2 ^ K) sr mr b1))
+    (hdom : ∀ R, 1 ≤ R → R ≤ min sl sr → LaneDomainAvx K R τ' (2 * Ma) (2 * Mb)) :
+    cnvPairwise avxOps K omg iomg rs off sl sr ml mr a0 a1 b0 b1 =
+      .ok (cnvApplyCol (2 * 2 ^ K) rs off
+        (colAdd (2 * 2 ^ K) (cnvPrepareCol (2 * 2 ^ K) sl ml a0) (cnvPrepareCol (2 * 2 ^ K) sl ml a1))
+        (colAdd (2 * 2 ^ K) (cnvPrepareCol (2 * 2 ^ K) sr mr b0) (cnvPrepareCol (2 * 2 ^ K) sr mr b1))) :=
+  cnvAvx_pairwise_exact K hK2 omg iomg τ τ' Ma Mb rs off sl sr ml mr a0 a1 b0 b1 hacc hτ0 hττ hf hsl hsr hMa hMb
+    hrawA0 hrawA1 hrawB0 hrawB1 hA0 hA1 hB0 hB1 hdom
+
+/-- the pairwise domains in numbers (`τ' = 2^-50 = τ51 + 4u`): `R·Ma·Mb ≤ 2^(domBitsP K)` on FFT64Ref,
+`domBitsP = 37, 35, 33, 31, 28, 26, 24, 22, 20, 18, 16, 14, 11, 9`, and `2^(domBitsPA K)` on FFT64Avx,
+`domBitsPA = 36, 34, 32, 29, 27, 25, 23, 21, 19, 17, 15, 12, 10, 8`, for `K = 2 … 15` (two bits below the plain convolution for
+the doubled operands, at most one more for the extra rounding) -/
+theorem fft64_cnv_pairwise_domain_numeric (K : Nat) (hK2 : 2 ≤ K) (hK : K ≤ 15) (R : Nat) (hR1 : 1 ≤ R) (hR : R ≤ 64) (Ma Mb : ℝ)
+    (hMa : 1 ≤ Ma) (hMb : 1 ≤ Mb) :
+    (R * (Ma * Mb) ≤ (2:ℝ) ^ (domBitsP K) → VmpDomain K R τ50 (2 * Ma) (2 * Mb)) ∧
+    (R * (Ma * Mb) ≤ (2:ℝ) ^ (domBitsPA K) → LaneDomainAvx K R τ50 (2 * Ma) (2 * Mb)) :=
+  ⟨vmpDomain_pair_numeric K hK2 hK R hR1 hR Ma Mb hMa hMb, laneDomainAvx_pair_numeric K hK2 hK R hR1 hR Ma Mb hMa hMb⟩
+
+/-- pairwise convolution with numbers only (tables accurate to `2^-51`): exact on both back ends, hence equal -/
+theorem fft64_cnv_pairwise_ref_avx_agree (K : Nat) (hK2 : 2 ≤ K) (hK : K ≤ 15) (omg iomg : Array Nat) (Ma Mb : ℝ) (rs off sl sr : Nat)
+    (ml mr : Int) (a0 a1 b0 b1 : Col) (hacc : TableAccurate τ51 K omg iomg) (hsl : 1 ≤ sl) (hsr : 1 ≤ sr) (h64 : min sl sr ≤ 64)
+    (hMa : 1 ≤ Ma) (hMb : 1 ≤ Mb)
+    (hrawA0 : ∀ j, j < min sl a0.length → ∀ c ∈ limbOr0 (2 * 2 ^ K) a0 j, c.natAbs ≤ 2 ^ 50 - 1)
+    (hrawA1 : ∀ j, j < min sl a1.length → ∀ c ∈ limbOr0 (2 * 2 ^ K) a1 j, c.natAbs ≤ 2 ^ 50 - 1)
+    (hrawB0 : ∀ j, j < min sr b0.length → ∀ c ∈ limbOr0 (2 * 2 ^ K) b0 j, c.natAbs ≤ 2 ^ 50 - 1)
+    (hrawB1 : ∀ j, j < min sr b1.length → ∀ c ∈ limbOr0 (2 * 2 ^ K) b1 j, c.natAbs ≤ 2 ^ 50 - 1)
+    (hA0 : PrepOKA K Ma (cnvPrepareCol (2 * 2 ^ K) sl ml a0)) (hA1 : PrepOKA K Ma (cnvPrepareCol (2 * 2 ^ K) sl ml a1))
+    (hB0 : PrepOKA K Mb (cnvPrepareCol (2 * 2 ^ K) sr mr b0)) (hB1 : PrepOKA K Mb (cnvPrepareCol (2 * 2 ^ K) sr mr b1))
+    (h : (min sl sr : Nat) * (Ma * Mb) ≤ (2:ℝ) ^ (domBitsPA K)) :
+    cnvPairwise avxOps K omg iomg rs off sl sr ml mr a0 a1 b0 b1 =
+      .ok (cnvApplyCol (2 * 2 ^ K) rs off
+        (colAdd (2 * 2 ^ K) (cnvPrepareCol (2 * 2 ^ K) sl ml a0) (cnvPrepareCol (2 * 2 ^ K) sl ml a1))
+        (colAdd (2 * 2 ^ K) (cnvPrepareCol (2 * 2 ^ K) sr mr b0) (cnvPrepareCol (2 * 2 ^ K) sr mr b1))) ∧
+    cnvPairwise avxOps K omg iomg rs off sl sr ml mr a0 a1 b0 b1 = cnvPairwise refOps K omg iomg rs off sl sr ml mr a0 a1 b0 b1 := by
+  have hτ0 : 0 ≤ τ51 := by unfold τ51; positivity
+  have hRle : ∀ R : Nat, R ≤ min sl sr → (R:ℝ) * (Ma * Mb) ≤ (2:ℝ) ^ (domBitsPA K) := by
+    intro R hR
+    refine le_trans ?_ h
+    have : (R:ℝ) ≤ ((min sl sr : Nat):ℝ) := by exact_mod_cast hR
+    exact mul_le_mul_of_nonneg_right this (by positivity)
+  have hle : (2:ℝ) ^ (domBitsPA K) ≤ (2:ℝ) ^ (domBitsP K) := by
+    apply pow_le_pow_right₀ (by norm_num)
+    interval_cases K <;> simp [domBitsPA, domBitsP]
+  have dA : ∀ R, 1 ≤ R → R ≤ min sl sr → LaneDomainAvx K R τ50 (2 * Ma) (2 * Mb) :=
+    fun R hR1 hR => laneDomainAvx_pair_numeric K hK2 hK R hR1 (le_trans hR h64) Ma Mb hMa hMb (hRle R hR)
+  have dR : ∀ R, 1 ≤ R → R ≤ min sl sr → VmpDomain K R τ50 (2 * Ma) (2 * Mb) :=
+    fun R hR1 hR => vmpDomain_pair_numeric K hK2 hK R hR1 (le_trans hR h64) Ma Mb hMa hMb (le_trans (hRle R hR) hle)
+  have eA := fft64avx_cnv_pairwise_matches_spec K hK2 omg iomg τ51 τ50 Ma Mb rs off sl sr ml mr a0 a1 b0 b1 hacc hτ0 τ51_le_τ50
+    pair_growth_ok hsl hsr hMa hMb hrawA0 hrawA1 hrawB0 hrawB1 hA0 hA1 hB0 hB1 dA
+  have eR := fft64_cnv_pairwise_matches_spec K hK2 omg iomg τ51 τ50 Ma Mb rs off sl sr ml mr a0 a1 b0 b1 hacc hτ0 τ51_le_τ50
+    pair_growth_ok hsl hsr hMa hMb (prepOK_of_A K Ma _ hA0) (prepOK_of_A K Ma _ hA1) (prepOK_of_A K Mb _ hB0) (prepOK_of_A K Mb _ hB1) dR
+  exact ⟨eA, by rw [eA, eR]⟩
+
+/- FULL STATEMENT (not proved): `convolution_apply_dft` with `n < 8` (`m/4 = 0` blocks: nothing is written to the result) is
+   outside the model (`.err "n<8"`); `TableAccurate τ51` itself is a hypothesis for `n > 4` (checked by the gate against exact
+   enclosures of the roots of unity for every `n ≤ 2^16`, proved in Lean for the `m = 2` tables only). -/
+
+/-! non-vacuity: both back ends on the crate's real `m = 4` tables, evaluated by the kernel; the numeric domain is inhabited -/
+def omg4 : Array Nat := #[4604544271217802189, 4604544271217802188, 4606496786581982534, 4600565431771507043, 0, 0, 0, 0]
+def iomg4 : Array Nat := #[4606496786581982534, 13823937468626282851, 4604544271217802189, 13827916308072577996, 0, 0, 0, 0]
+def okOr {α} (o : Outcome α) (d : α) : α := match o with | .ok v => v | _ => d
+example : okOr (cnvPipeline refOps 2 omg4 iomg4 3 0 2 2 (-1) (-4) [[4095, -4095, 1, 0, 7, -9, 1000, 4095], [1, 2, 3, 4, 5, 6, 7, -4095]]
+      [[-5, 4095, 0, 0, 0, 0, 0, 1], [4095, 4095, 4095, 4095, 4095, 4095, 4095, 4095]]) [] =
+    cnvApplyCol 8 3 0 (cnvPrepareCol 8 2 (-1) [[4095, -4095, 1, 0, 7, -9, 1000, 4095], [1, 2, 3, 4, 5, 6, 7, -4095]])
+      (cnvPrepareCol 8 2 (-4) [[-5, 4095, 0, 0, 0, 0, 0, 1], [4095, 4095, 4095, 4095, 4095, 4095, 4095, 4095]]) := by decide +kernel
+example : okOr (cnvPipeline avxOps 2 omg4 iomg4 3 1 2 2 (-1) (-4) [[4095, -4095, 1, 0, 7, -9, 1000, 4095], [1, 2, 3, 4, 5, 6, 7, -4095]]
+      [[-5, 4095, 0, 0, 0, 0, 0, 1], [4095, 4095, 4095, 4095, 4095, 4095, 4095, 4095]]) [] =
+    cnvApplyCol 8 3 1 (cnvPrepareCol 8 2 (-1) [[4095, -4095, 1, 0, 7, -9, 1000, 4095], [1, 2, 3, 4, 5, 6, 7, -4095]])
+      (cnvPrepareCol 8 2 (-4) [[-5, 4095, 0, 0, 0, 0, 0, 1], [4095, 4095, 4095, 4095, 4095, 4095, 4095, 4095]]) := by decide +kernel
+example : okOr (vmpPipelineAvx 2 omg4 iomg4 2 [([4095, -4095, 1, 0, 7, -9, 1000, 4095], [1, 2, 3, 4, 5, 6, 7, -4095]),
+       ([-5, 4095, 0, 0, 0, 0, 0, 1], [4095, 4095, 4095, 4095, 4095, 4095, 4095, 4095])]) [] =
+    Hal.sumPolys 8 [Hal.negMul [4095, -4095, 1, 0, 7, -9, 1000, 4095] [1, 2, 3, 4, 5, 6, 7, -4095],
+      Hal.negMul [-5, 4095, 0, 0, 0, 0, 0, 1] [4095, 4095, 4095, 4095, 4095, 4095, 4095, 4095]] := by decide +kernel
+example : ∀ R, 1 ≤ R → R ≤ min 2 2 → LaneDomainAvx 2 R τ51 4096 4096 ∧ VmpDomain 2 R τ51 4096 4096 := by
+  intro R h1 h2
+  have hR : (R:ℝ) ≤ 2 := by exact_mod_cast h2
+  exact ⟨fft64avx_lane_domain_numeric 2 (by norm_num) R h1 (by omega) _ _ (by norm_num) (by norm_num) (by unfold domBitsVA; norm_num; nlinarith),
+    fft64_vmp_domain_numeric 2 le_rfl (by norm_num) R h1 (by omega) _ _ (by norm_num) (by norm_num) (by unfold domBitsV; norm_num; nlinarith)⟩
+example : PrepOKA 2 4096 (cnvPrepareCol 8 2 (-4) [[-5, 4095, 0, 0, 0, 0, 0, 1], [4095, 4095, 4095, 4095, 4095, 4095, 4095, 4095]]) := by
+  have e : cnvPrepareCol 8 2 (-4) [[-5, 4095, 0, 0, 0, 0, 0, 1], [4095, 4095, 4095, 4095, 4095, 4095, 4095, 4095]] =
+      [[-5, 4095, 0, 0, 0, 0, 0, 1], [4092, 4092, 4092, 4092, 4092, 4092, 4092, 4092]] := by decide +kernel
+  rw [e]
+  intro l hl
+  simp only [List.mem_cons, List.not_mem_nil, or_false] at hl
+  rcases hl with rfl | rfl
+  · refine ⟨rfl, ?_⟩
+    intro c hc
+    simp only [List.mem_cons, List.not_mem_nil, or_false] at hc
+    rcases hc with rfl | rfl | rfl | rfl | rfl | rfl | rfl | rfl <;> (constructor <;> norm_num)
+  · refine ⟨rfl, ?_⟩
+    intro c hc
+    simp only [List.mem_cons, List.not_mem_nil, or_false] at hc
+    rcases hc with rfl | rfl | rfl | rfl | rfl | rfl | rfl | rfl <;> (constructor <;> norm_num)
+/-- the fused lane on concrete doubles differs from the reference `caddmul` (separately rounded products) -/
+example : caddmulLaneAvx (0x3FF0000000000000, 0x3FF0000000000000) (0x3FF0000000000001, 0x3FF0000000000001) (0x3FF0000000000001, 0x3FE6A09E667F3BCD) ≠
+    caddmul (0x3FF0000000000000, 0x3FF0000000000000) (0x3FF0000000000001, 0x3FF0000000000001) (0x3FF0000000000001, 0x3FE6A09E667F3BCD) := by
+  decide +kernel
+example : lo32 3000000000 = -1294967296 ∧ byConstTerm true 3000000000 3 = -3884901888 ∧ byConstTerm false 3000000000 3 = 9000000000 := by
+  decide +kernel
+
+example : okOr (cnvPairwise refOps 2 omg4 iomg4 2 0 1 1 (-1) (-1) [[4095, -4095, 1, 0, 7, -9, 1000, 4095]] [[1, 2, 3, 4, 5, 6, 7, -4095]]
+      [[-5, 4095, 0, 0, 0, 0, 0, 1]] [[4095, 4095, 4095, 4095, 4095, 4095, 4095, 4095]]) [] =
+    cnvApplyCol 8 2 0 (colAdd 8 (cnvPrepareCol 8 1 (-1) [[4095, -4095, 1, 0, 7, -9, 1000, 4095]]) (cnvPrepareCol 8 1 (-1) [[1, 2, 3, 4, 5, 6, 7, -4095]]))
+      (colAdd 8 (cnvPrepareCol 8 1 (-1) [[-5, 4095, 0, 0, 0, 0, 0, 1]]) (cnvPrepareCol 8 1 (-1) [[4095, 4095, 4095, 4095, 4095, 4095, 4095, 4095]])) := by
+  decide +kernel
+example : okOr (cnvPairwise avxOps 2 omg4 iomg4 2 0 1 1 (-1) (-1) [[4095, -4095, 1, 0, 7, -9, 1000, 4095]] [[1, 2, 3, 4, 5, 6, 7, -4095]]
+      [[-5, 4095, 0, 0, 0, 0, 0, 1]] [[4095, 4095, 4095, 4095, 4095, 4095, 4095, 4095]]) [] =
+    okOr (cnvPairwise refOps 2 omg4 iomg4 2 0 1 1 (-1) (-1) [[4095, -4095, 1, 0, 7, -9, 1000, 4095]] [[1, 2, 3, 4, 5, 6, 7, -4095]]
+      [[-5, 4095, 0, 0, 0, 0, 0, 1]] [[4095, 4095, 4095, 4095, 4095, 4095, 4095, 4095]]) [] := by decide +kernel
+example : VmpDomain 2 1 τ50 (2 * 4096) (2 * 4096) ∧ LaneDomainAvx 2 1 τ50 (2 * 4096) (2 * 4096) :=
+  ⟨(fft64_cnv_pairwise_domain_numeric 2 le_rfl (by norm_num) 1 le_rfl (by norm_num) 4096 4096 (by norm_num) (by norm_num)).1 (by unfold domBitsP; norm_num),
+   (fft64_cnv_pairwise_domain_numeric 2 le_rfl (by norm_num) 1 le_rfl (by norm_num) 4096 4096 (by norm_num) (by norm_num)).2 (by unfold domBitsPA; norm_num)⟩
+
+/-- **`cnv_by_const_apply` on FFT64Ref = the specification with the `i64` wrap** (`Hal.cnvByConstCol w64`): wrapping every product
+and every partial sum equals wrapping the exact sum once; with `fft64avx_cnv_by_const_eq_ref` the same holds for FFT64Avx when all
+operands fit `i32` -/
+theorem fft64_cnv_by_const_matches_spec (K rs off : Nat) (a : Col) (b : List Int) (hK2 : 2 ≤ K)
+    (ha : ∀ l ∈ a, l.length = 2 * 2 ^ K) (ha0 : a.length ≠ 0) (hb0 : b.length ≠ 0) :
+    cnvByConst false K rs off a b = .ok (cnvByConstCol w64 (2 * 2 ^ K) rs off a b) := by
+  have h8 : ¬ (2 * 2 ^ K < 8) := by
+    have : 2 ^ 2 ≤ 2 ^ K := Nat.pow_le_pow_right (by norm_num) hK2
+    omega
+  exact cnvByConst_ref_matches_spec K rs off a b h8 ha ha0 hb0
+example : cnvByConst false 2 2 0 [[3000000000, 1, -3000000000, 5, 6, 7, 8, 9223372036854775807]] [3, -2] =
+    .ok (cnvByConstCol w64 8 2 0 [[3000000000, 1, -3000000000, 5, 6, 7, 8, 9223372036854775807]] [3, -2]) :=
+  fft64_cnv_by_const_matches_spec 2 2 0 _ _ le_rfl (by decide) (by decide) (by decide)
+example : cnvByConstCol w64 8 2 0 [[3000000000, 1, -3000000000, 5, 6, 7, 8, 9223372036854775807]] [3, -2] =
+    [[9000000000, 3, -9000000000, 15, 18, 21, 24, 9223372036854775805], [-6000000000, -2, 6000000000, -10, -12, -14, -16, 2]] := by decide +kernel
 
 end C07
